@@ -101,9 +101,18 @@ theorem setNumbers_seq (n : Nat) (rows : List Row) (h : Seq 0 rows) : setNumbers
         simp [hr]
     · rfl
 
-/-- `checkSheet` changes nothing when row slot `i` already holds row `i+1` -/
-theorem checkSheet_seq (rows : List Row) (h : Seq 0 rows) : checkSheet rows = .ok rows := by
+/-- `checkSheet` changes nothing when row slot `i` already holds row `i+1` (inside the grid) -/
+theorem checkSheet_seq (rows : List Row) (h : Seq 0 rows) (hlen : rows.length ≤ Facts.TotalRows) :
+    checkSheet rows = .ok rows := by
   unfold checkSheet
+  have hany : rows.any (fun r => decide (r.r > Facts.TotalRows)) = false := by
+    rw [List.any_eq_false]
+    intro r hr
+    obtain ⟨i, hi, rfl⟩ := List.getElem_of_mem hr
+    have := index_of_seq 0 rows h i hi
+    simp only [decide_eq_true_eq]
+    omega
+  simp only [hany, Bool.false_eq_true, if_false]
   rw [csScan_seq 0 rows h]
   have hp : place (List.replicate (0 + rows.length) emptyRow) rows = rows := by
     have := place_seq [] (List.replicate (0 + rows.length) emptyRow) rows (by simpa using h) (by simp)
